@@ -1,7 +1,7 @@
 #!/bin/bash
-# usage: ./seedeval.sh Cnn  — confirms a seeded change independently in a fresh scratch worktree and runs our check against it.
+# usage: [SEED_ROUND=2] ./seedeval.sh Cnn  — confirms a seeded change independently in a fresh scratch worktree and runs our check against it.
 # 1 patch applies + builds; 2 demo passes without the change; 3 demo fails with it; 4 ./check Cnn with VERIF_REPO
-P=$1; SO=/tmp/seed_out/$P; WT=/tmp/sv_$P
+P=$1; R=${SEED_ROUND:-}; SO=/tmp/seed${R}_out/$P; SW=/tmp/seed${R}_$P; WT=/tmp/sv${R}_$P
 export GOFLAGS=-mod=mod GOPROXY=off GOSUMDB=off GOTOOLCHAIN=local
 [ -f $SO/patch.diff ] || { echo "no patch"; exit 2; }
 git -C /repo worktree remove --force $WT 2>/dev/null
@@ -10,9 +10,9 @@ DEMO_CMD=$(grep -h '^DEMO_CMD:' $SO/RUN.txt | tail -1 | sed 's/^DEMO_CMD: *//')
 DEMO_FILE=$(grep -h '^DEMO_FILE:' $SO/RUN.txt | tail -1 | sed 's/^DEMO_FILE: *//')
 [ -n "$2" ] && DEMO_FILE=$2
 [ -n "$3" ] && DEMO_CMD=$3
-if [ -z "$DEMO_FILE" ]; then DEMO_FILE=$(git -C /tmp/seed_$P status --porcelain | grep '^??' | awk '{print $2}' | grep '_test.go$' | head -1); fi
+if [ -z "$DEMO_FILE" ]; then DEMO_FILE=$(git -C $SW status --porcelain | grep '^??' | awk '{print $2}' | grep '_test.go$' | head -1); fi
 echo "demo file: $DEMO_FILE ; demo cmd: $DEMO_CMD"
-mkdir -p $WT/$(dirname $DEMO_FILE); cp /tmp/seed_$P/$DEMO_FILE $WT/$DEMO_FILE || exit 2
+mkdir -p $WT/$(dirname $DEMO_FILE); cp $SW/$DEMO_FILE $WT/$DEMO_FILE || exit 2
 ( cd $WT && git apply --check $SO/patch.diff ) || { echo "PATCH DOES NOT APPLY"; exit 2; }
 echo "--- demo WITHOUT change"; ( cd $WT && eval "$DEMO_CMD" 2>&1 | tail -3 ); 
 ( cd $WT && git apply $SO/patch.diff && go build ./... ) || { echo "BUILD FAILS"; exit 2; }
